@@ -12,8 +12,8 @@ from .driver import HarnessError, ZygoteSet, simroot
 PROP = "C16"
 PROFILE = "z_c16"
 ASSUMPTIONS = [
-    "processes are modelled by baton-passing threads inside one forked interpreter; only the choice of who runs is simulated, the code that runs is the real perform_cached_doit/pickle/SymPy on a real tmpfs directory",
-    "kill = thread parked forever + descriptors closed; every chunk boundary (down to single bytes) is a reachable crash state; power loss after a completed close/rename is not modelled",
+    "simulated processes are either baton-passing threads inside one forked interpreter or real fork()ed processes that block on a pipe at every seam (half of the runs each); only the choice of who runs is simulated, the code that runs is the real perform_cached_doit/pickle/SymPy on a real tmpfs directory",
+    "kill = thread parked forever + descriptors closed, or SIGKILL of the actor process; every chunk boundary (down to single bytes) is a reachable crash state; power loss after a completed close/rename is not modelled",
     "directory contents are restricted to what some version of perform_cached_doit (pinned protocol via the harness 'legacy writer', or current), run to completion or killed at any byte, can leave behind",
     "PYTHONHASHSEED unset is emulated by removing the variable under a fixed real seed",
     "equality is canonical-digest equality after the fixed-point reconstruction N (DESIGN 2.5); canon/N are trusted harness code",
@@ -42,7 +42,7 @@ def _verification_phases(phases: list[dict]) -> list[dict]:
             "cfg": cfg, "verify": True,
             "actors": [{"kind": "user", "calls": [{"expr": e, "dir": d} for e, d in keys]}],
             "knobs": {"kills": 0, "errors": 0, "chunk_modes": [0], "pid_base": 9000 + 16 * i,
-                      "max_steps": 20000},
+                      "max_steps": 20000, "mode": phases[0]["knobs"].get("mode", "thread") if phases else "thread"},
         })
     return out
 
@@ -91,7 +91,12 @@ def generate(seed_: int, run: int, info: dict) -> dict:
         }
         phases.append({"cfg": cfg, "actors": actors, "knobs": knobs,
                        "clear_before": p > 0 and rng.random() < 0.1})
-    return {"phases": phases, "fault_mode": fault_mode}
+    # half of the runs use real fork()ed processes as actors (SIGKILL, per-process module state),
+    # the other half baton-passing threads; the schedule and the seams are the same in both
+    mode = rng.choice(["thread", "proc"])
+    for phase in phases:
+        phase["knobs"]["mode"] = mode
+    return {"phases": phases, "fault_mode": fault_mode, "mode": mode}
 
 
 def sweep_workload(cfg: str, j: int, writer: str, n: int, partner: int | None) -> dict:
@@ -305,6 +310,7 @@ class Context:
             "n_actors": sum(len(p["actors"]) for p in phases),
             "legacy": sum(1 for p in phases for a in p["actors"] if a["kind"] == "legacy"),
             "fault_mode": workload["fault_mode"],
+            "mode": workload.get("mode", "thread"),
             "armed": {"kill": sum(p["knobs"]["kills"] for p in phases),
                       "error": sum(p["knobs"]["errors"] for p in phases)},
             "signature": core.sha([p["events_digest"] for p in out["phases"]])[:20],
@@ -379,10 +385,12 @@ def coverage(records: list[dict], extras: list[dict], options: dict) -> dict:
         "phases_per_hash_config": cfgs,
         "runs_with_legacy_writer": sum(1 for r in records if r["stats"]["legacy"]),
         "runs_fault_free_configuration": sum(1 for r in records if not r["stats"]["fault_mode"]),
+        "runs_with_real_process_actors": sum(1 for r in records if r["stats"].get("mode") == "proc"),
+        "runs_with_thread_actors": sum(1 for r in records if r["stats"].get("mode") != "proc"),
         "expression_pool": pool,
         "colliding_keys_H0": next((e.get("colliding_keys_H0") for e in extras if e.get("colliding_keys_H0")), []),
         "real_components": ["ampform.sympy.perform_cached_doit", "ampform.sympy._cache", "pickle", "SymPy", "pathlib/os on tmpfs"],
-        "stubbed_components": ["process -> baton-passing thread", "kill -> park + close fds", "PYTHONHASHSEED unset -> env var removed", "temp-name entropy/pid/clock -> seeded"],
+        "stubbed_components": ["process -> baton-passing thread or fork()ed process gated by a pipe", "kill -> park + close fds, or SIGKILL", "PYTHONHASHSEED unset -> env var removed", "temp-name entropy/pid/clock -> seeded"],
     }
 
 
